@@ -7,7 +7,9 @@
 //     class: kf | ukfa | ukfg | sukf | glik | bootg | boots | gpf-<kf|ukfa|ukfg|sukf>-<g|s>
 //     bits : string of 0/1 consumed call by call ('-' = empty; exhausted = valid)
 //     sub  : SUKF measurement_sub_size (ignored by the other classes)
-//   -> out=<label> log=<calls> in=<same|modified>
+//     optional trailing token reps=<r>: r successive correct() calls on the same object (fresh belief each
+//     time), the scripts being consumed across the calls
+//   -> r0:<label>:<calls>:<same|modified> r1:...
 //     label: pred     corrected belief identical bit-for-bit, every field, to the predicted one
 //            full     identical to a twin object with an all-valid model (same data, same seed)
 //            partial  (gpf) identical to a twin whose wrapped Gaussian correction is switched off:
@@ -188,37 +190,45 @@ static std::unique_ptr<LikelihoodModel> mkLik(char kind, const Data12& d, std::s
 static std::unique_ptr<StateModel> mkState(const Data12& d) { return std::unique_ptr<StateModel>(new HState(d.F, d.Q)); }
 
 // ---------------------------------------------------------------- single corrections
-static std::string gauss_case(const std::string& cls, uint64_t seed, const Data12& d, long sub, std::shared_ptr<Script> s) {
+static std::string gauss_case(const std::string& cls, uint64_t seed, const Data12& d, long sub, std::shared_ptr<Script> s, long reps) {
     long n = d.n, k = d.k;
     std::shared_ptr<Script> ok(new Script());
     std::unique_ptr<GaussianCorrection> c = mkGauss(cls, d, s, sub), twin = mkGauss(cls, d, ok, sub);
-    GaussianMixture pred(k, n), in(k, n), out(k, n), ref(k, n);
-    Rng r(seed ^ 0x55aa); fillGM(pred, r); in = pred;
-    poisonGM(out); poisonGM(ref);
-    c->correct(pred, out);
-    std::string log = s->take_log();
-    bool full = false;
-    if (!(cls == "sukf" && d.m % sub != 0)) { twin->correct(in, ref); full = sameGM(out, ref); }
-    Out o; o.s("out=" + pick({{"pred", sameGM(out, in)}, {"full", full}})).s("log=" + log).s(sameGM(pred, in) ? "in=same" : "in=modified");
+    Rng r(seed ^ 0x55aa);
+    Out o;
+    for (long rep = 0; rep < reps; ++rep) {
+        GaussianMixture pred(k, n), in(k, n), out(k, n), ref(k, n);
+        fillGM(pred, r); in = pred;
+        poisonGM(out); poisonGM(ref);
+        c->correct(pred, out);
+        std::string log = s->take_log();
+        bool full = false;
+        if (!(cls == "sukf" && d.m % sub != 0)) { twin->correct(in, ref); full = sameGM(out, ref); }
+        o.s("r" + std::to_string(rep) + ":" + pick({{"pred", sameGM(out, in)}, {"full", full}}) + ":" + log + ":" + (sameGM(pred, in) ? "same" : "modified"));
+    }
     return o.str();
 }
 
-static std::string glik_case(uint64_t seed, const Data12& d, std::shared_ptr<Script> s) {
+static std::string glik_case(uint64_t seed, const Data12& d, std::shared_ptr<Script> s, long reps) {
     std::shared_ptr<Script> ok(new Script());
     SModel mm(d, s), mmok(d, ok);
     GaussianLikelihood gl, gl2;
     LikelihoodModel& l = gl; LikelihoodModel& l2 = gl2;
-    MatrixXd states(d.n, d.k); Rng r(seed ^ 0x55aa); for (long j = 0; j < d.k; ++j) for (long i = 0; i < d.n; ++i) states(i, j) = r.dy(4.0);
-    bool v, v2; VectorXd val, val2;
-    std::tie(v, val) = l.likelihood(mm, states);
-    std::string log = s->take_log();
-    std::tie(v2, val2) = l2.likelihood(mmok, states);
-    std::string lab = !v ? "none" : ((val.size() == val2.size() && vh::same_bits(val, val2)) ? "some" : "other");
-    Out o; o.s("out=" + lab).s("log=" + log).s("in=same");
+    Rng r(seed ^ 0x55aa);
+    Out o;
+    for (long rep = 0; rep < reps; ++rep) {
+        MatrixXd states(d.n, d.k); for (long j = 0; j < d.k; ++j) for (long i = 0; i < d.n; ++i) states(i, j) = r.dy(4.0);
+        bool v, v2; VectorXd val, val2;
+        std::tie(v, val) = l.likelihood(mm, states);
+        std::string log = s->take_log();
+        std::tie(v2, val2) = l2.likelihood(mmok, states);
+        std::string lab = !v ? "none" : ((val.size() == val2.size() && vh::same_bits(val, val2)) ? "some" : "other");
+        o.s("r" + std::to_string(rep) + ":" + lab + ":" + log + ":same");
+    }
     return o.str();
 }
 
-static std::string part_case(const std::string& cls, uint64_t seed, const Data12& d, long sub, std::shared_ptr<Script> s) {
+static std::string part_case(const std::string& cls, uint64_t seed, const Data12& d, long sub, std::shared_ptr<Script> s, long reps) {
     long n = d.n, k = d.k;
     std::shared_ptr<Script> ok(new Script()), ok2(new Script());
     std::unique_ptr<PFCorrection> c, twin, twin_partial;
@@ -234,15 +244,19 @@ static std::string part_case(const std::string& cls, uint64_t seed, const Data12
         std::unique_ptr<GaussianCorrection> off = mkGauss(w, d, ok2, sub); off->skip(true);
         twin_partial.reset(new GPFCorrection(mkLik(lk, d, ok2), std::move(off), mkState(d), (unsigned)seed));
     } else throw vh::BadArgs("class:" + cls);
-    ParticleSet pred(k, n), in(k, n), out(k, n), ref(k, n), refp(k, n);
-    Rng r(seed ^ 0x55aa); fillPS(pred, r); in = pred;
-    poisonPS(out); poisonPS(ref); poisonPS(refp);
-    c->correct(pred, out);
-    std::string log = s->take_log();
-    twin->correct(in, ref);
-    std::vector<std::pair<std::string, bool>> hits = {{"pred", samePS(out, in)}, {"full", samePS(out, ref)}};
-    if (twin_partial) { twin_partial->correct(in, refp); hits.push_back({"partial", samePS(out, refp)}); }
-    Out o; o.s("out=" + pick(hits)).s("log=" + log).s(samePS(pred, in) ? "in=same" : "in=modified");
+    Rng r(seed ^ 0x55aa);
+    Out o;
+    for (long rep = 0; rep < reps; ++rep) {
+        ParticleSet pred(k, n), in(k, n), out(k, n), ref(k, n), refp(k, n);
+        fillPS(pred, r); in = pred;
+        poisonPS(out); poisonPS(ref); poisonPS(refp);
+        c->correct(pred, out);
+        std::string log = s->take_log();
+        twin->correct(in, ref);      // all three objects draw the same number of normals per call (GPF): they stay in step
+        std::vector<std::pair<std::string, bool>> hits = {{"pred", samePS(out, in)}, {"full", samePS(out, ref)}};
+        if (twin_partial) { twin_partial->correct(in, refp); hits.push_back({"partial", samePS(out, refp)}); }
+        o.s("r" + std::to_string(rep) + ":" + pick(hits) + ":" + log + ":" + (samePS(pred, in) ? "same" : "modified"));
+    }
     return o.str();
 }
 
@@ -297,13 +311,17 @@ static std::string sis_case(const std::string& cls, uint64_t seed, const Data12&
 static std::string fault_case(Toks& t) {
     std::string cls = t.tok(); uint64_t seed = (uint64_t)t.nat(); long n = t.nat(), m = t.nat(), k = t.nat(), sub = t.nat();
     if (n < 1 || n > 6 || m < 1 || m > 6 || k < 1 || k > 8 || sub < 1 || sub > 8) throw vh::BadArgs("size");
-    std::shared_ptr<Script> s(new Script()); parse_scripts(t, *s); t.done();
+    std::shared_ptr<Script> s(new Script()); parse_scripts(t, *s);
+    long reps = 1;
+    if (!t.empty()) { std::string rt = t.tok(); if (rt.compare(0, 5, "reps=") != 0) throw vh::BadArgs("reps"); reps = std::atol(rt.c_str() + 5); }
+    t.done();
+    if (reps < 1 || reps > 8) throw vh::BadArgs("reps");
     Data12 d(seed, n, m, k);
     g_step = 0;
-    if (cls == "kf" || cls == "ukfa" || cls == "ukfg" || cls == "sukf") return gauss_case(cls, seed, d, sub, s);
-    if (cls == "glik") return glik_case(seed, d, s);
+    if (cls == "kf" || cls == "ukfa" || cls == "ukfg" || cls == "sukf") return gauss_case(cls, seed, d, sub, s, reps);
+    if (cls == "glik") return glik_case(seed, d, s, reps);
     if (cls.compare(0, 4, "sis-") == 0) return sis_case(cls, seed, d, sub, s);
-    return part_case(cls, seed, d, sub, s);
+    return part_case(cls, seed, d, sub, s, reps);
 }
 
 int main() {
